@@ -3,7 +3,10 @@
 import json, sys, os
 sys.path.insert(0, os.path.dirname(os.path.abspath(__file__)))
 from checklib.props import PROPS
-from checklib.manifest_text import TEXT, NOT_APPLICABLE, HOOK_COMMITS
+from checklib.manifest_text import TEXT, NOT_APPLICABLE
+import subprocess
+# hook commits = every commit of /repo whose subject starts with "verif" (short hash + subject)
+HOOK_COMMITS = [l.strip() for l in subprocess.run(["git", "-C", "/repo", "log", "--reverse", "--format=%h %s"], stdout=subprocess.PIPE).stdout.decode().splitlines() if l.split(" ", 1)[1].startswith("verif")]
 
 checks = []
 for pid in sorted(PROPS):
